@@ -481,7 +481,8 @@ def run_config(config, bundle, request, world, stream, policy=None,
                        "horizon": 400 * (1 + stream.below(8, "pct-h"))}
             else:
                 pol = {"kind": "rw",
-                       "mean": (2, 5, 20, 60)[stream.below(4, "rw-mean")]}
+                       "mean": (2, 5, 20, 60)[stream.below(4, "rw-mean")],
+                       "hot_den": (2, 3, 6, 12)[stream.below(4, "rw-hot")]}
             sim = _th.ThreadSim(kernel, TRACED_FILES, nworkers, pol,
                                 max_steps=400000)
             out.l2 = sim
